@@ -15,7 +15,11 @@ Open by decision (spec MpiOp!Open): MPI_CHAR with the arithmetic/bitwise operato
 MPI-3.1 5.9.2 but have an obvious meaning; an implementation may accept them (then the natural result is required) or reject them.
 For LAND/LOR/LXOR only the truth of the result is compared.
 
-MUTATIONS
+Mutation evidence (tools/mutbuild.sh worktree, quick tier, one mutation at a time; all gave exit 1 with a VIOLATION line):
+  * MAXLOC keeps the HIGHER index on equal values                                      -> caught, C31:MAXLOC:<every pair type>:value (Reduce_local and Allreduce)
+  * LXOR compares the values instead of their truth ((a) != (b))                       -> caught, C31:LXOR:<28 types>:value
+  * MAX_TYPES loses DT_FLAG_MULTILANG (MAX/MIN/SUM/PROD reject MPI_AINT/OFFSET/COUNT)  -> caught, C31:(MAX|MIN|SUM|PROD):(AINT|OFFSET|COUNT):rejected
+  Fix validation: with /verif/proposed/fix-C31-cxx-bool-logical-ops.diff applied the check exits 0 with no KNOWN-FINDING line.
 """
 import json
 import vlib
